@@ -48,3 +48,23 @@ Definition open_image (f : list N) : sout :=
   | Ok st => obs_of st
   | _ => SFail
   end.
+
+(** * C04: the journal of a script (index file), as (kind, offset, bytes): 0 = write, 1 = create *)
+From RN Require Import RaftLog.Crash.
+
+Definition mut_view (m : mut) : N * N * list N :=
+  match m with
+  | MWrite _ off d => (0, N.of_nat off, d)
+  | MCreate _ => (1, 0, [])
+  | _ => (2, 0, [])
+  end.
+
+Fixpoint sops_ops (ops : list sop) : list iop :=
+  match ops with
+  | [] => []
+  | SOp op :: r => op :: sops_ops r
+  | SRead :: r => sops_ops r
+  end.
+
+Definition journal_of_script (ops : list sop) : list (N * N * list N) :=
+  map mut_view (journal id_sh (sops_ops ops)).
